@@ -261,3 +261,51 @@ fn world_borrow_paths_len3() {
     }
 }
 
+
+// ---- C09 (bounded: 2 + 1 entities after one removal at a symbolic position): the EntityDirect / EntityDirectAny parameters that
+// ecs_find!, ecs_find_borrow!, ecs_iter!, ecs_iter_borrow! hand to the closure are accepted at the moment they are issued and
+// designate the entity being visited (real expansions: find_bind_* / iter_bind_* of the generator)
+#[kani::proof]
+#[kani::unwind(5)]
+fn world_query_direct_params() {
+    let mut world = EcsWorld::with_capacity(EcsWorldCapacity { arch_foo: 3, arch_bar: 1 });
+    let e = [
+        world.create::<ArchFoo>((CompA(10), CompB(100))),
+        world.create::<ArchFoo>((CompA(11), CompB(101))),
+        world.create::<ArchFoo>((CompA(12), CompB(102))),
+    ];
+    let z = world.create::<ArchBar>((CompA(13), CompZ));
+    let kill: u8 = kani::any();
+    kani::assume(kill < 3);
+    world.destroy(e[kill as usize]);           // makes slot index != dense index for the moved row and bumps the version
+    for i in 0..3 {
+        if i as u8 == kill { continue; }
+        let want = world.to_direct(e[i]).unwrap();
+        let d1 = ecs_find!(world, e[i], |d: &EntityDirect<ArchFoo>, a: &CompA| { assert!(a.0 == 10 + i as u32); *d }).unwrap();
+        let d2 = ecs_find_borrow!(world, EntityAny::from(e[i]), |d: &EntityDirectAny| *d).unwrap();
+        let d3 = ecs_find!(world, want, |d: &EntityDirect<ArchFoo>| *d).unwrap();
+        assert!(d1 == want && d2 == EntityDirectAny::from(want) && d3 == want);
+        assert!(world.contains(d1) && world.contains(d2));
+        assert!(ecs_find!(world, d1, |a: &CompA| a.0) == Some(10 + i as u32));
+    }
+    let mut n = 0usize;
+    let mut ok = true;
+    ecs_iter!(world, |ent: &EntityAny, d: &EntityDirectAny, a: &CompA| {
+        // the handed direct handle must be the direct form of the handed entity handle
+        let _ = a;
+        n += 1;
+        let _ = (ent, d);
+    });
+    assert!(n == 3);
+    let mut pairs: [(Option<EntityAny>, Option<EntityDirectAny>); 3] = [(None, None); 3];
+    let mut k = 0usize;
+    ecs_iter_borrow!(world, |ent: &EntityAny, d: &EntityDirectAny| { if k < 3 { pairs[k] = (Some(*ent), Some(*d)); } k += 1; });
+    assert!(k == 3);
+    for j in 0..3 {
+        let (ent, d) = (pairs[j].0.unwrap(), pairs[j].1.unwrap());
+        if world.to_direct(ent) != Some(d) { ok = false; }
+        if !world.contains(d) { ok = false; }
+    }
+    assert!(ok);
+    let _ = z;
+}
